@@ -185,6 +185,36 @@ theorem shape_hashToCurvePointCalls : Shape.hashToCurvePointCalls = [
   "sha256.Sum256"
 ] := rfl
 
+/-- bn256/*.go: every write-capable use of a package-level variable inside a function body (assign / incdec / &v / method call with v as receiver) is what `Model/Bls14Verify.lean` / `Bls14G1.lean` transcribes. -/
+theorem shape_bn256PackageState : Shape.bn256PackageState = [] := rfl
+
+/-- sig.go, pubkey.go: methods invoked on / addresses taken of the shared-pointer field `.value` of a receiver or parameter is what `Model/Bls14Verify.lean` / `Bls14G1.lean` transcribes. -/
+theorem shape_groupsigValueUses : Shape.groupsigValueUses = [
+  "GeneratePubkey: arg.value.getBigInt()",
+  "Pubkey.Deserialize: arg.value.Unmarshal()",
+  "Pubkey.GetHexString: arg.value.Marshal()",
+  "Pubkey.IsEmpty: arg.value.IsEmpty()",
+  "Pubkey.IsEqual: arg.value.Marshal()",
+  "Pubkey.Serialize: arg.value.Marshal()",
+  "Pubkey.SetHexString: arg.value.Unmarshal()",
+  "Pubkey.add: &arg.value",
+  "Pubkey.add: arg.value.Add()",
+  "Signature.Deserialize: arg.value.Unmarshal()",
+  "Signature.GetHexString: arg.value.Marshal()",
+  "Signature.IsEqual: arg.value.Marshal()",
+  "Signature.IsNil: arg.value.IsNil()",
+  "Signature.IsValid: arg.value.IsValid()",
+  "Signature.Serialize: arg.value.Marshal()",
+  "Signature.SetHexString: arg.value.IsNil()",
+  "Signature.SetHexString: arg.value.Unmarshal()",
+  "Signature.add: &arg.value",
+  "Signature.add: arg.value.Add()",
+  "Signature.mul: &arg.value",
+  "Signature.mul: arg.value.ScalarMult()",
+  "VerifySig: &arg.value",
+  "VerifySig: arg.value.IsNil()"
+] := rfl
+
 /-- The constants are mutually consistent and are the ones the byte-level proofs rely on:
     `p2` spells `P`, `P ≡ 3 (mod 4)` (square roots by one exponentiation), `P` fits in
     `numBytes` bytes but `2P` does not (so `x + p` is the only alias), `Order < P`. -/
